@@ -4,4 +4,6 @@ cd "$(dirname "$0")"
 mkdir -p build evidence replays
 verus --version >/dev/null 2>&1 || { echo "verus not found"; exit 1; }
 python3 -c "import json" || exit 1
+# prebuild the replay harness against /repo (offline; no dependencies)
+python3 tools/replay_driver.py C20 0 1 >/dev/null 2>&1 || echo "warning: replay harness did not build"
 exit 0
